@@ -108,7 +108,7 @@ func kindPairsWorkload(r *mon.Run, owner string) mon.Workload {
 // awkwardKeys: member names that read like syntax, contain the delimiters and escapes of the expression language,
 // or a dot (with a decoy: the nested path the dotted name would spell if it were split).
 var awkwardKeys = append([]string{"", "a.b", "a.b.c", "file.size", "app.kubernetes.io/name", "v1.2", ".", "a.", ".a", "\\", "\\\\", "\"", "\\\"", "a\\\"b", "C:\\\"Program Files\\\"", "\\\\\"", "'", "\\'", "`", "\\`", "a`b\\\"c",
-	"\n", "a\tb", "\u00e9", "e\u0301", "\U0001F600", "\\u00e9", "\\n", "\u0080", "\u00ff", "caf\u00e9", "\u00a0", "\u00ff\u0100", "\u007f", "0", "1", "-1", "00", "1.0", "1e0", "\\ud83d", "\\udc00x", "a\\uD800", "\\\\ud83d", "\\u", "\\u12", "x\\ude00\\ud83d", "\\U0001F600", "\\x41", "C:\\temp", "\\t", "\\\\", "\\u0041"}, c14Words...)
+	"\n", "a\tb", "\u00e9", "e\u0301", "\U0001F600", "\\u00e9", "\\n", "\u0080", "\u00ff", "caf\u00e9", "\u00a0", "\u00ff\u0100", "\u007f", "0", "1", "-1", "00", "1.0", "1e0", "\\ud83d", "\\udc00x", "a\\uD800", "\\\\ud83d", "\\u", "\\u12", "x\\ude00\\ud83d", "\\U0001F600", "\\x41", "C:\\temp", "\\t", "\\\\", "\\u0041", "name", "Name", "id", "élan", "Élan", "x-y", "foo-bar", "a-1"}, c14Words...)
 
 // awkwardDoc holds key k with value "own", plus decoys: the nested path a dotted name would mean when split,
 // the name trimmed, lower-cased and upper-cased.
@@ -121,7 +121,15 @@ func awkwardDoc(k string) map[string]interface{} {
 		}
 		d[parts[0]] = v
 	}
-	for _, alt := range []string{strings.TrimSpace(k), strings.ToLower(k), strings.ToUpper(k), strings.Trim(k, "'\"`")} {
+	title := k
+	if rs := []rune(k); len(rs) > 0 {
+		if up := strings.ToUpper(string(rs[:1])); up != string(rs[:1]) {
+			title = up + string(rs[1:])
+		} else {
+			title = strings.ToLower(string(rs[:1])) + string(rs[1:])
+		}
+	}
+	for _, alt := range []string{strings.TrimSpace(k), strings.ToLower(k), strings.ToUpper(k), strings.Trim(k, "'\"`"), title} {
 		if alt != k {
 			d[alt] = "decoy-variant"
 		}
